@@ -57,7 +57,7 @@ CHECKS = {
 
 CHECKS["C13"] = dict(
     category="model_checking",
-    text="TLA+ model of the client side of graphql-transport-ws (written from the statement) checked by TLC for all server frame sequences up to N=4 (quick) / 6 (thorough) over an 11-frame alphabet plus socket close, "
+    text="TLA+ model of the client side of graphql-transport-ws (written from the statement) checked by TLC for all server frame sequences up to N=5 (quick) / 7 (thorough) over an 11-frame alphabet plus socket close, "
          "7 invariants; the complete reachable state set (one state per frame sequence, via a history variable) is dumped and EVERY state is replayed against 6 implementation variants "
          "(bundled async client, OpenTelemetry without/with stub/no-op tracer, generated subscription method plain and OpenTelemetry) through a scripted fake connection; configuration product "
          "(init payload, headers, origin, variables with UNSET/models) on short sequences; the fake is bound to the real websockets library by loopback scripts.",
@@ -216,7 +216,7 @@ ADDENDA = {
     "C06": "Also the full member-name catalogue as field names, defaults on fields contributed by `extend input`, two scalars of one Python type with their own serializers. Round 6: defaults naming Enum attributes (name, value).",
     "C07": "Also two scalars sharing one Python type, a scalar whose class is its own parser, scalars reachable only through nested inputs under include_all_inputs=false, top-level scalar fields with and without ShorterResults. Round 6: the second value of every scalar menu is a valid FALSY value.",
     "C08": "Also the K2 typed spread matrix, subset spreads, inline fragments on super-types as demand scopes, every sequence (<=3) of directives around @mixin on four kinds of sites.",
-    "C13": "Frames outside the model's alphabet (null data, foreign ids, payload variants, JSON non-objects, bytes) are decided differentially: all sequences of <=2 such frames x variable configurations, every OpenTelemetry variant against the plain client. Round 6: two subscriptions alive at once on ONE client object, every schedule of the two tasks within a deviation bound (2 quick / 3 thorough) on a virtual asyncio loop, 25 script pairs x 7 variants, each iterator compared with the model's expectation for its own frame sequence.",
+    "C13": "Frames outside the model's alphabet (null data, foreign ids, payload variants, JSON non-objects, bytes) are decided differentially: all sequences of <=2 such frames x variable configurations, every OpenTelemetry variant against the plain client. Round 6: two subscriptions alive at once on ONE client object, every schedule of the two tasks within a deviation bound (3 quick / 4 thorough) on a virtual asyncio loop, 25 script pairs x 7 variants, each iterator compared with the model's expectation for its own frame sequence.",
     "C14": "Also schema-derived expressions: every catalogue / harvested identifier (names bound anywhere in the generated code) as attribute field, method field, root field, argument and root argument; every directed reference graph on 3 object types x field orders. Round 6: an argument-VALUE family (falsy values, explicit nulls inside input objects, serialized custom scalars) at root fields, nested method fields and mutations.",
     "C15": "Also the single top-level field in every type kind x arrangements of operations (incl. root fragments, custom operations), uploads, module-form plugin entries. Round 6: a root-level __typename next to the single field, plain / aliased / through a root fragment.",
     "C16": "Also description text x place of the description, every order of implemented interfaces, target extension spellings, both schema sources configured at once.",
